@@ -798,11 +798,103 @@ impl Space for LazyCorpus {
     }
 }
 
+/// Second session: give feature `f` (0..=9) to the first and the last sheet of an existing workbook, the way
+/// build_lattice does it for a fresh one.
+pub fn add_feature_later(b: &mut Spreadsheet, f: usize) {
+    let last = b.get_sheet_count() - 1;
+    let mut targets = vec![0usize];
+    if last != 0 {
+        targets.push(last);
+    }
+    for (k, idx) in targets.iter().enumerate() {
+        let ws = b.get_sheet_mut(idx).unwrap();
+        match f {
+            0 => add_styles(ws),
+            1 => add_ext_links(ws, if k == 0 { 12 } else { 3 }, &|i| format!("https://example.com/later{}/page{}?x={}", k, i, i * 7)),
+            2 => add_int_links(ws, 2, &|i| format!("Sheet1!B{}", i + k as u32)),
+            3 => add_comments(ws, if k == 0 { 3 } else { 1 }, &|i| if i % 2 == 0 { "Author A".into() } else { "Author C".into() }, &|i| format!("later comment {} on sheet {}", i, k)),
+            4 => add_merges(ws, 2),
+            6 => add_validations(ws, 2, "pick one", "\"a,b,c\""),
+            7 => add_cond_formats(ws, 2, "20"),
+            8 => add_table(ws, if k == 0 { "TableLater1" } else { "TableLater2" }, ["Col A", "Col B"]),
+            9 => add_sheet_protection(ws),
+            _ => {}
+        }
+    }
+    if f == 5 {
+        add_defined_names(b, 0, "LaterGlobalOne", "LaterLocalOne");
+        add_defined_names(b, last, "LaterGlobalTwo", "LaterLocalTwo");
+    }
+    if f == 9 {
+        add_book_protection(b);
+    }
+}
+
+/// A lattice workbook is saved and reloaded, then one more feature is added and the result is saved again.
+struct SecondSessionLattice {
+    cases: Vec<(u32, usize)>,
+}
+impl Space for SecondSessionLattice {
+    fn len(&self) -> u64 {
+        self.cases.len() as u64 * 2
+    }
+    fn describe(&self, i: u64) -> Value {
+        let (bits, f) = self.cases[(i / 2) as usize];
+        let names: Vec<&str> = (0..FEATURES.len()).filter(|k| bits & (1 << k) != 0).map(|k| FEATURES[k]).collect();
+        json!({"kind":"second-session","first_session_features": names, "bits": bits, "added_after_reload": FEATURES[f], "light": i % 2 == 1})
+    }
+    fn tags(&self, i: u64) -> Vec<String> {
+        let (bits, f) = self.cases[(i / 2) as usize];
+        let mut t: Vec<String> = (0..FEATURES.len()).filter(|k| bits & (1 << k) != 0).map(|k| FEATURES[k].to_string()).collect();
+        t.push(format!("added:{}", FEATURES[f]));
+        t.push("second-session".into());
+        t
+    }
+    fn run(&self, i: u64, sink: &mut Sink) {
+        let (bits, f) = self.cases[(i / 2) as usize];
+        let light = i % 2 == 1;
+        let tl = self.tags(i);
+        let tags: Vec<&str> = tl.iter().map(|x| x.as_str()).collect();
+        let case = self.describe(i);
+        let r = std::panic::catch_unwind(|| -> Result<Spreadsheet, String> {
+            let b = build_lattice(bits, false);
+            let (_, mut b2) = roundtrip(&b, light)?;
+            add_feature_later(&mut b2, f);
+            Ok(b2)
+        });
+        match r {
+            Err(e) => sink.violations.push(Violation::new("save-succeeds", &format!("build-panicked:{}", panic_class(&panic_msg(&e))), &tags, case, panic_msg(&e))),
+            Ok(Err(e)) => sink.violations.push(Violation::new("save-succeeds", &format!("first-generation-failed:{}", panic_class(&e)), &tags, case, e)),
+            Ok(Ok(b2)) => {
+                if let Some(bytes) = check_package(&b2, light, &tags, &case, sink, "") {
+                    sink.hashes.push(fnv(&strip_volatile(&bytes)));
+                }
+            }
+        }
+    }
+}
+
 pub fn space(tier: Tier, id: &str) -> Option<Box<dyn Space>> {
     match id {
         "lattice" => Some(Box::new(Lattice { subsets: subsets(tier) })),
         "channels" => Some(Box::new(Channels { cases: channel_cases() })),
         "corpus" => Some(Box::new(Corpus { files: corpus_files(), big: tier == Tier::Thorough })),
+        "second-session" => {
+            let n = FEATURES.len();
+            let mut cases = vec![];
+            let max = if tier == Tier::Thorough { 2 } else { 1 };
+            for bits in 0u32..(1 << n) {
+                if bits.count_ones() > max {
+                    continue;
+                }
+                for f in 0..10usize {
+                    if bits & (1 << f) == 0 {
+                        cases.push((bits, f));
+                    }
+                }
+            }
+            Some(Box::new(SecondSessionLattice { cases }))
+        }
         "lazy-corpus" => Some(Box::new(LazyCorpus { files: corpus_files(), big: tier == Tier::Thorough })),
         _ => None,
     }
@@ -813,7 +905,7 @@ fn replay(tier: Tier, case: &Value) -> Vec<Violation> {
 }
 
 fn run(ctx: &Ctx) -> i32 {
-    let ids = ["lattice", "channels", "corpus", "lazy-corpus"];
+    let ids = ["lattice", "channels", "corpus", "lazy-corpus", "second-session"];
     let spaces = ids.iter().map(|id| (*id, space(ctx.tier, id).unwrap())).collect();
     let nsub = subsets(ctx.tier).len();
     run_e1(
@@ -822,7 +914,7 @@ fn run(ctx: &Ctx) -> i32 {
             spaces,
             cfg: PoolCfg { chunk: 8, case_timeout: std::time::Duration::from_secs(120), ..Default::default() },
             level: "exploration",
-            rule: "every workbook of (i) the feature-subset lattice over 11 annotation/structure features x {standard, light writer} x {macro payload, none}, (ii) every escape channel x applicable special string x both writers, (iii) every corpus file loaded and re-saved by both writers, (iv) every corpus file opened lazily, its first or last sheet materialised and given a text cell with an external link while the other sheets stay unloaded (model = an eagerly loaded twin with the same edit), is written to memory and handed to the independent Python validator+decoder; oracle = no validity problem and decoded cells/formulas/hyperlinks/merges/defined names/sheet list equal the pre-save model dump. distinct_nontrivial = distinct (part list, part sizes[, channel, text]) signatures of the produced packages".into(),
+            rule: "every workbook of (i) the feature-subset lattice over 11 annotation/structure features x {standard, light writer} x {macro payload, none}, (ii) every escape channel x applicable special string x both writers, (iii) every corpus file loaded and re-saved by both writers, (v) every lattice workbook with at most 1 (thorough: 2) features saved and reloaded, then given one more feature on its first and last sheet, (iv) every corpus file opened lazily, its first or last sheet materialised and given a text cell with an external link while the other sheets stay unloaded (model = an eagerly loaded twin with the same edit), is written to memory and handed to the independent Python validator+decoder; oracle = no validity problem and decoded cells/formulas/hyperlinks/merges/defined names/sheet list equal the pre-save model dump. distinct_nontrivial = distinct (part list, part sizes[, channel, text]) signatures of the produced packages".into(),
             alphabets: json!({"features": FEATURES, "subsets": nsub, "writers": 2, "macro": 2, "channels": CHANNELS, "specials": SPECIALS.iter().map(|s| s.0).collect::<Vec<_>>(), "channel_cases": channel_cases().len(), "corpus_files": corpus_files().len()}),
             bounds: json!({"lattice": if ctx.tier == Tier::Quick {"subsets of size <=2 and complements of size <=1 (cut of the 2^11 lattice, stated as a bound)"} else {"all 2^11 subsets"}, "corpus": if ctx.tier == Tier::Quick {"files <= 600 kB"} else {"all files"}}),
             exhaustive: true,
